@@ -10,7 +10,7 @@ V = os.path.dirname(os.path.dirname(os.path.abspath(__file__)))
 sys.path.insert(0, os.path.join(V, "mutants"))
 import catalog
 
-REPO = "/repo"
+REPO = os.environ.get("VERIF_REPO", "/repo")
 
 
 def run_one(m):
@@ -27,10 +27,10 @@ def run_one(m):
                 return dict(id=m["id"], status="STALE", detail="pattern matches %d times in %s" % (n, ed["file"]))
             s = s.replace(ed["old"], ed["new"])
             open(p, "w", encoding="utf-8").write(s)
-        env = dict(os.environ, VERIF_REPO=repo, VERIF_EVIDENCE_DIR=os.path.join(tmp, "ev"), VERIF_REPLAY_DIR=os.path.join(tmp, "rp"))
+        env = dict(os.environ, VERIF_TIER="quick", VERIF_NO_BATTERY="1", VERIF_REPO=repo, VERIF_EVIDENCE_DIR=os.path.join(tmp, "ev"), VERIF_REPLAY_DIR=os.path.join(tmp, "rp"))
         res = {}
         for pid in m["props"]:
-            r = subprocess.run([os.path.join(V, "checks/check"), pid], env=env, capture_output=True, text=True)
+            r = subprocess.run([os.path.join(V, "checks/check"), pid, "--tier", "quick"], env=env, capture_output=True, text=True)
             res[pid] = (r.returncode, r.stdout + r.stderr)
         control = m.get("control", False)
         status, detail = "OK", ""
